@@ -13,7 +13,7 @@ func init() {
 	register(&propDef{
 		ID: "C13",
 		Explanation: "Static conformance of the target-list stages: (R1) in both file generators every acyclic segment of the line loop emits exactly one item, and the emitted error is the sentinel of the first failing test (decode -> ErrJSON, address -> ErrIP, port range -> ErrPort with the port predicate folded to [1,65535]), a scanner error yields one error item; (R2) a decode target declared outside the loop has every field that is read afterwards reset on every path from the loop head to the decode; " +
-			"(R3) in every request decorator (exclusion filter, ARP resolver, live wrapper) stores to a request and uses of its destination address are dominated by request.Err == nil, an error request is forwarded exactly once untouched, and every request is forwarded at most once; (R4) error requests never reach Fill/Scan (the builder and worker contracts of C07.R1/C08.R1 are re-evaluated).",
+			"(R5) a destination for which neither the cache nor a (nil-when-unknown) gateway MAC exists becomes an error request (C11.R4/R5 re-evaluated); (R3) in every request decorator (exclusion filter, ARP resolver, live wrapper) stores to a request and uses of its destination address are dominated by request.Err == nil, an error request is forwarded exactly once untouched, and every request is forwarded at most once; (R4) error requests never reach Fill/Scan (the builder and worker contracts of C07.R1/C08.R1 are re-evaluated).",
 		NotDecided:  []string{"wording of third-party error strings", "net.ParseIP / easyjson decoding semantics"},
 		Assumptions: []string{"bufio.Scanner delivers each line once"},
 		Run:         runC13,
@@ -70,6 +70,20 @@ func runC13(p *Prog, r *Report) {
 		o2.Rule = "C13.R4"
 		o2.Text = "error requests never become probes: " + o.Text
 		r.Obs = append(r.Obs, &o2)
+	}
+	// R5: an entry without any known MAC becomes an error, not a frame (resolver contract and the
+	// nil-when-unknown gateway MAC of C11.R4/R5 re-evaluated)
+	r.Min("C13.R5", 3)
+	sub5 := NewReport("C13", r.Tier)
+	checkResolver(p, sub5)
+	checkResolverWiring(p, sub5)
+	for _, o := range sub5.Obs {
+		if o.Rule == "C11.R4" || strings.Contains(o.Construct, "getGatewayMAC") {
+			o2 := *o
+			o2.Rule = "C13.R5"
+			o2.Text = "a destination without any known MAC yields an error record: " + o.Text
+			r.Obs = append(r.Obs, &o2)
+		}
 	}
 }
 
